@@ -146,6 +146,17 @@ def run_state(case):
         if op[0] == "place":
             _, bid, vol, trader, k = op
             place(bid, vol, trader, kmap(k) * tick)
+        elif op[0] == "bulk":
+            # n orders at ONE price (queue lengths beyond 8 / 16 bits): one array call through the numpy API,
+            # n single calls otherwise
+            _, bid, n, vol, trader, k = op
+            feat["bulk_orders"] = feat.get("bulk_orders", 0) + n
+            feat["bulk_max"] = max(feat.get("bulk_max", 0), n)
+            if numpy_api:
+                env.submit_limit_orders((np.full(n, bid, dtype=bool), np.full(n, vol, dtype=np.uint32), np.full(n, trader, dtype=np.uint32), np.full(n, kmap(k) * tick, dtype=np.uint32)))
+            else:
+                for _i in range(n):
+                    env.place_order(bid, vol, trader, price=kmap(k) * tick)
         elif op[0] == "cancel":
             n = len(env.get_orders())
             if n:
@@ -204,7 +215,7 @@ def run_state(case):
     if fills:
         feat["frames_with_fills"] = 1
     nontrivial = feat["asym"] >= 1
-    return nontrivial, {"array_states": 1, "states_at_the_top_of_the_price_range": int(shift == 1), "states_at_the_bottom_of_the_price_range": int(shift == 2), "end_to_end_frames_with_fills": feat.get("frames_with_fills", 0), "arrays_checked": feat["arrays"], "steps": feat["steps"], "asymmetric_audits": feat["asym"], "asymmetric_audits_with_distinct_nonzero_traded_volume": feat.get("asym_with_trade_vol", 0), "trading_toggles": feat.get("toggles", 0), "dictionaries_checked": feat["dicts"], "dictionaries_read_before_the_first_step": feat.get("dicts_before_first_step", 0), "numpy_api_cases": int(numpy_api)}
+    return nontrivial, {"array_states": 1, "states_at_the_top_of_the_price_range": int(shift == 1), "states_at_the_bottom_of_the_price_range": int(shift == 2), "end_to_end_frames_with_fills": feat.get("frames_with_fills", 0), "arrays_checked": feat["arrays"], "steps": feat["steps"], "asymmetric_audits": feat["asym"], "asymmetric_audits_with_distinct_nonzero_traded_volume": feat.get("asym_with_trade_vol", 0), "trading_toggles": feat.get("toggles", 0), "dictionaries_checked": feat["dicts"], "dictionaries_read_before_the_first_step": feat.get("dicts_before_first_step", 0), "numpy_api_cases": int(numpy_api), "orders_placed_in_bulk_at_one_price": feat.get("bulk_orders", 0), "cases_with_a_level_of_65536_or_more_orders": int(feat.get("bulk_max", 0) >= 65536), "cases_with_a_level_of_256_or_more_orders": int(feat.get("bulk_max", 0) >= 256)}
 
 
 def state_case_st():
@@ -237,6 +248,25 @@ def state_case_st():
     long_run = st.tuples(prefix, st.lists(sparse, min_size=150, max_size=420)).map(lambda t: t[0] + t[1] + [("step",)])
     ops = st.integers(0, 9).flatmap(lambda k: long_run if k == 0 else short)
     return st.fixed_dictionaries({"dict0": st.booleans(), "shift": st.sampled_from([0, 0, 0, 0, 0, 0, 1, 1, 2]), "tick": st.one_of(st.integers(1, 10), st.sampled_from([1, 3, 5])), "seed": st.integers(0, 2**32), "step_size": st.sampled_from([100, 1000, 10**6]), "numpy_api": st.booleans(), "ops": ops, "quiet": st.one_of(st.just(0), st.integers(0, 2**64 - 1))})
+
+
+def populated_case(n, bid, numpy_api, k_off, tick=2, shift=0):
+    """One price level holding exactly n orders (second level of its side when k_off = 1), a smaller level on the
+    other side, a step, one cancel, a step, a partial sweep by a market-crossing order, a step."""
+    k = (99 - k_off) if bid else (101 + k_off)
+    other = ("place", not bid, 3, 4, 101 if bid else 99)
+    ops = [("place", True, 2, 1, 99), ("place", False, 5, 2, 101), ("place", True, 1, 1, 97), ("place", False, 1, 2, 104), ("bulk", bid, n, 1, 7, k), other, ("step",), ("dict",),
+           ("cancel", 65535), ("step",), ("place", not bid, 40, 8, k), ("step",), ("step",)]
+    return {"dict0": False, "shift": shift, "tick": tick, "seed": n, "step_size": 10**6, "numpy_api": numpy_api, "ops": [list(o) for o in ops], "quiet": 0}
+
+
+POPULATION_COUNTS = [255, 256, 257, 65535, 65536, 65537]
+
+
+def populated_case_st(big):
+    # the magic counts (8- and 16-bit boundaries) and arbitrary counts in between / beyond
+    n = st.one_of(st.sampled_from(POPULATION_COUNTS), st.integers(200, 70000 if big else 3000), st.sampled_from([70000, 131071, 131073] if big else POPULATION_COUNTS))
+    return st.tuples(n, st.booleans(), st.booleans(), st.integers(0, 1), st.sampled_from([1, 2, 5, 10]), st.sampled_from([0, 0, 1, 2])).map(lambda t: populated_case(*t))
 
 
 # ---------------------------------------------------------------------------------------------
@@ -301,6 +331,8 @@ RULE = (
     "volume, bid count, ask volume, ask count), recomputed from get_orders() / get_trades() of the same object, with documented lengths 9 and 45; at the "
     "end get_market_data() must have exactly the documented keys, each equal to the per-step series recomputed by the harness. Non-trivial: an audited "
     "state where every bid/ask pair of quantities differs and level >= 1 is occupied on both sides (states that additionally have a distinct non-zero traded volume are counted separately). "
+    "(1b) populated levels: one price level holding n orders for every n in {255, 256, 257, 65535, 65536, 65537} (enumerated, both APIs) and generated n up to 70 000 "
+    "(thorough: 131 073), placed by one array call (StepEnvNumpy) or n single calls (StepEnv): the same array / dictionary oracle, so order counts and volumes beyond 8 and 16 bits are read back. "
     "(2) data frames: generated order / trade tuple lists through orders_to_dataframe / trades_to_dataframe: the j-th column must carry the documented "
     "name of the j-th tuple field and hold that field's values. The docstring index tables are parsed and cross-checked (reported in evidence)."
 )
@@ -316,9 +348,10 @@ def replay_runner(part, case):
     return run_frames(case) if part.startswith("data-frames") else run_state(case)
 
 
+
 def main(tier):
     q = tier == "quick"
-    parts = [("array-states", 4000 if q else 50000, state_case_st(), run_state), ("data-frames", 3000 if q else 40000, frames_case_st(), run_frames)]
+    parts = [("array-states", 4000 if q else 50000, state_case_st(), run_state), ("populated-levels-exact-counts", 0, [populated_case(n, (i + j) % 2 == 0, j == 1, (i // 2) % 2) for i, n in enumerate(POPULATION_COUNTS) for j in range(2)], run_state), ("populated-levels", 12 if q else 300, populated_case_st(not q), run_state), ("data-frames", 3000 if q else 40000, frames_case_st(), run_frames)]
     rc = common.run_parts("C19", tier, parts, RULE, ASSUMPTIONS, replay_runner)
     # append the docstring cross-check to the evidence (informational)
     try:
